@@ -129,7 +129,7 @@ func CallVarArgs(in ssa.Instruction) ([]ssa.Value, bool) {
 	if !ok {
 		return nil, false
 	}
-	args := ci.Common().Args
+	args := BaselineArgs(ci.Common())
 	if len(args) == 0 {
 		return nil, false
 	}
